@@ -61,7 +61,14 @@ SignedVecs == Cross2(SignedShapes, Ns, LAMBDA sh, n : [op |-> "Concurrent", n |-
 DistinctVecs ==
   Concat(SeqMap(LAMBDA sh : SeqMap(LAMBDA off : [op |-> "ConcurrentVerify", n |-> 4, reps |-> Reps * 5, flipoff |-> off, cls |-> "flip"] @@ sh,
                                    ContentOffsets(sh.fn, sh.base, sh.typ)), SignedShapes))
-Vecs == SignedVecs \o DistinctVecs \o Cross2(Shapes \o ShapesU \o ShapesS, Ns, LAMBDA sh, n : [op |-> "Concurrent", fn |-> sh[1], in |-> sh[2], n |-> n, reps |-> Reps, cls |-> "n" \o ToString(n)] @@ sh[3])
+\* identities the caller assembles as struct literals from the exported fields (zero padding: the literal carries no padding slice)
+ZeroPadId(st, ct, pubLen, spkLen) == Fill(pubLen, 3) \o Zeros(BlockLen - pubLen - spkLen) \o Fill(spkLen, 5) \o EncKeyCert(st, ct, 0)
+LiteralShapes ==
+  << << "ReadKeysAndCert", ZeroPadId(7, 4, 32, 32) >>, << "ReadDestination", ZeroPadId(7, 4, 32, 32) >>, << "ReadRouterIdentity", ZeroPadId(7, 4, 32, 32) >>,
+     << "ReadKeysAndCert", ZeroPadId(7, 0, 256, 32) >>, << "ReadDestination", ZeroPadId(11, 4, 32, 32) >>, << "ReadKeysAndCert", Id("key", 7, 4) >>,
+     << "ReadKeysAndCert", Id("null", 0, 0) >> >>
+LiteralVecs == Cross2(LiteralShapes, Ns, LAMBDA sh, n : [op |-> "Concurrent", fn |-> sh[1], in |-> sh[2], n |-> n, reps |-> Reps, literal |-> TRUE, cls |-> "literal/n" \o ToString(n)])
+Vecs == SignedVecs \o DistinctVecs \o LiteralVecs \o Cross2(Shapes \o ShapesU \o ShapesS, Ns, LAMBDA sh, n : [op |-> "Concurrent", fn |-> sh[1], in |-> sh[2], n |-> n, reps |-> Reps, cls |-> "n" \o ToString(n)] @@ sh[3])
 VARIABLE done
 Init == done = FALSE
 Next == ~done /\ ndJsonSerialize(OutFile, Vecs) /\ PrintT(<< "GENERATED", Len(Vecs) >>) /\ done' = TRUE
